@@ -31,6 +31,23 @@ def _pointee_key(an, st, t, i, args):
     return None
 
 
+def _pointee_int(an, st, t, i, args):
+    """abstract value of the integer a `&iN` argument points to; an untracked place gets its stable symbol (as a read of it would)"""
+    k = _pointee_key(an, st, t, i, args)
+    if k is None:
+        return None
+    v = st.vals.get(k)
+    if v is not None:
+        return v
+    ty = re.sub(r"^&('[a-z_]+ )?(mut )?", "", (t.get("arg_tys") or [""] * (i + 1))[i] or "")
+    if ty_range(ty) is None or k.startswith("(*"):
+        return None
+    sid = "m:%s" % k
+    nv = an.ensure_sym(st, an.top_for(ty, sid), sid)
+    st.vals[k] = nv
+    return nv
+
+
 def _len_of(an, st, t, i, args, sid):
     """length term of a slice-like argument; attaches a stable length symbol to container places"""
     a = args[i]
@@ -450,14 +467,36 @@ def apply(an, st, t, args, dkey, dty, sid):
         return HANDLED
     if m(r"(RangeInclusive<Idx>>::contains|Range<Idx>>::contains|std::ops::RangeInclusive::<Idx>::contains|std::ops::Range::<Idx>::contains|std::ops::RangeBounds::contains)$") and len(args) == 2:
         rk = _pointee_key(an, st, t, 0, args)
-        xk = _pointee_key(an, st, t, 1, args)
-        xv = st.vals.get(xk) if xk else None
+        xv = _pointee_int(an, st, t, 1, args)
         v = V(ty="bool")
         if rk is not None and xv is not None and st.term(xv) is not None:
             s_, e_, kind = range_terms(an, st, rk, t["arg_tys"][0])
             x = st.term(xv)
             if s_ is not None and e_ is not None:
-                v.cond = ("And", ("Ge", x, s_), ("Lt", x, e_))
+                lo_c, hi_c = ("Ge", x, s_), ("Lt", x, e_)
+                # a bound written as a negation (`-size..size`): x >= -(t)  <=>  x + t >= 0, kept as a sum constraint
+                sv = st.vals.get(rk + ".start")
+                ev = st.vals.get(rk + ".end")
+                if x[0] == "s" and sv is not None and sv.negof is not None and sv.negof[0] == "s":
+                    lo_c = ("SGe", x, sv.negof)
+                if x[0] == "s" and kind == "range" and ev is not None and ev.negof is not None and ev.negof[0] == "s":
+                    hi_c = ("SLt", x, ev.negof)
+                v.cond = ("And", lo_c, hi_c)
+        _set(an, st, dkey, v)
+        return HANDLED
+    # ---- membership in a literal const table: `TABLE.contains(&x)` --------------------------------------------------------------------
+    if m(r"core::slice::<impl \[T\]>::contains$") and len(args) == 2:
+        pk = _pointee_key(an, st, t, 0, args)
+        tdef = None
+        if pk is not None and pk.startswith("const:"):
+            tdef = pk[6:]
+        elif pk is not None and st.vals.get(pk) is not None:
+            tdef = st.vals[pk].tbl
+        vals = (getattr(an.prog, "const_vals", None) or {}).get(tdef) if tdef else None
+        xv = _pointee_int(an, st, t, 1, args)
+        v = V(ty="bool")
+        if vals and xv is not None and st.term(xv) is not None and st.term(xv)[0] == "s":
+            v.cond = ("In", st.term(xv), frozenset(vals))
         _set(an, st, dkey, v)
         return HANDLED
     # ---- surface::ViewBounds::view_bounds: Some((s, e)) => s < e <= size   (postcondition proven by check C08) ---------------------
